@@ -1,164 +1,137 @@
-(* ParseSchema.v — model of parser/schema.go. *)
-From GQL.model Require Import Base Utf8 Lexer Ast Parser ParseQuery.
+(* ParseSchema.v — model of parser/schema.go, one program per Go function. *)
+From GQL.model Require Import Base Utf8 Lexer Ast Parser Prog ParseQuery.
 Open Scope Z_scope.
 
 (* description text and whether a description token was present *)
-Definition parseDescription (d : dev) (s : pst) : (str * bool) * pst :=
-  let '(tok, s1) := peek d s in
-  if kind_eqb tok.(tkind) BlockString || kind_eqb tok.(tkind) String_ then
-    let '(t, s2) := next d s1 in ((t.(tval), true), s2)
-  else (([], false), s1).
+Definition parseDescription : prog (str * bool) :=
+  tok <- Peek ;;
+  if kind_eqb tok.(tkind) BlockString || kind_eqb tok.(tkind) String_
+  then t <- Next ;; Ret (t.(tval), true)
+  else Ret ([], false).
 
-Definition parseOperationTypeDefinition (d : dev) (s : pst) : optypedef * pst :=
-  let '(p, s1) := peekPos d s in
-  let '(op, s2) := parseOperationType d s1 in
-  let '(_, s3) := expect d Colon s2 in
-  let '(n, s4) := parseName d s3 in
-  (mkOpTypeDef op n p, s4).
+Definition parseOperationTypeDefinition (d : dev) : prog optypedef :=
+  p <- peekPos ;; op <- parseOperationType d ;; _ <- expect Colon ;; n <- parseName ;;
+  Ret (mkOpTypeDef op n p).
 
-Definition parseSchemaDefinition (d : dev) (fuel : nat) (desc : str) (s : pst) : schemadef * pst :=
-  let '(_, s1) := expectKeyword d (b "schema") s in
-  let '(p, s2) := peekPos d s1 in
-  let '(dirs, s3) := parseDirectives d fuel true s2 in
-  let '(tok, s4) := peek d s3 in
+Definition parseSchemaDefinition (d : dev) (fuel : nat) (desc : str) : prog schemadef :=
+  _ <- expectKeyword (b "schema") ;;
+  p <- peekPos ;;
+  dirs <- parseDirectives fuel true ;;
+  tok <- Peek ;;
   if negb (d F_S1) && negb (kind_eqb tok.(tkind) BraceL) then
-    (mkSchemaDef desc dirs [] p, error_at s4 tok)
+    ErrorAt tok ;;; Ret (mkSchemaDef desc dirs [] p)
   else
-    let '(ops, s5) := some d (parseOperationTypeDefinition d) fuel BraceL BraceR s4 in
-    (mkSchemaDef desc dirs ops p, s5).
+    ops <- some BraceL BraceR (parseOperationTypeDefinition d) ;;
+    Ret (mkSchemaDef desc dirs ops p).
 
 Definition tok_is_implements (d : dev) (tok : token) : bool :=
   str_eqb tok.(tval) (b "implements") && (d F_S3 || kind_eqb tok.(tkind) Name).
 
-(* for p.skip(sep) && p.err == nil { append(parseName()) } *)
-Fixpoint sep_names_loop (d : dev) (fuel : nat) (sep : kind) (s : pst) (acc : list str) : list str * pst :=
-  match fuel with
-  | O => stall (rev acc) s
-  | S f =>
-    let '(has, s1) := skip d sep s in
-    if has && negb (has_err s1) then
-      let '(n, s2) := parseName d s1 in sep_names_loop d f sep s2 (n :: acc)
-    else (rev acc, s1)
-  end.
+(* for p.skip(sep) && p.err == nil { append(item()) } *)
+Definition sep_loop {A} (sep : kind) (item : prog A) : prog (list A) :=
+  Loop (has <- skip sep ;; e <- HasErr ;;
+        if has && negb e then (x <- item ;; Ret (Some x)) else Ret None).
 
-Definition parseImplementsInterfaces (d : dev) (fuel : nat) (s : pst) : list str * pst :=
-  let '(tok, s1) := peek d s in
+Definition parseImplementsInterfaces (d : dev) : prog (list str) :=
+  tok <- Peek ;;
   if tok_is_implements d tok then
-    let '(_, s2) := next d s1 in
-    let '(_, s3) := skip d Amp s2 in
-    let '(n, s4) := parseName d s3 in
-    sep_names_loop d fuel Amp s4 [n]
-  else ([], s1).
+    _ <- Next ;; _ <- skip Amp ;; n <- parseName ;; rest <- sep_loop Amp parseName ;; Ret (n :: rest)
+  else Ret [].
 
-Definition parseUnionMemberTypes (d : dev) (fuel : nat) (s : pst) : list str * pst :=
-  let '(has, s1) := skip d Equals s in
-  if has then
-    let '(_, s2) := skip d Pipe s1 in
-    let '(n, s3) := parseName d s2 in
-    sep_names_loop d fuel Pipe s3 [n]
-  else ([], s1).
+Definition parseUnionMemberTypes : prog (list str) :=
+  has <- skip Equals ;;
+  if has then _ <- skip Pipe ;; n <- parseName ;; rest <- sep_loop Pipe parseName ;; Ret (n :: rest)
+  else Ret [].
 
-Definition parseArgumentDef (d : dev) (fuel : nat) (s : pst) : argdef * pst :=
-  let '(p, s1) := peekPos d s in
-  let '((desc, _), s2) := parseDescription d s1 in
-  let '(_, s3) := peek d s2 in
-  let '(n, s4) := parseName d s3 in
-  let '(_, s5) := expect d Colon s4 in
-  let '(t, s6) := parseTypeReference d fuel s5 in
-  let '(hasdef, s7) := skip d Equals s6 in
-  let '(dv, s8) := if hasdef then let '(x, st) := parseValueLiteral d fuel true s7 in (Some x, st)
-                   else (None, s7) in
-  let '(dirs, s9) := parseDirectives d fuel true s8 in
-  (mkArgDef desc n dv t dirs p, s9).
+Definition parseArgumentDef (fuel : nat) : prog argdef :=
+  p <- peekPos ;;
+  '(desc, _) <- parseDescription ;;
+  _ <- Peek ;;
+  n <- parseName ;; _ <- expect Colon ;;
+  t <- parseTypeReference fuel ;;
+  hasdef <- skip Equals ;;
+  dv <- (if hasdef then x <- parseValueLiteral fuel true ;; Ret (Some x) else Ret None) ;;
+  dirs <- parseDirectives fuel true ;;
+  Ret (mkArgDef desc n dv t dirs p).
 
-Definition parseArgumentDefs (d : dev) (fuel : nat) (s : pst) : list argdef * pst :=
-  some d (parseArgumentDef d fuel) fuel ParenL ParenR s.
+Definition parseArgumentDefs (fuel : nat) : prog (list argdef) :=
+  some ParenL ParenR (parseArgumentDef fuel).
 
-Definition parseFieldDefinition (d : dev) (fuel : nat) (s : pst) : fielddef * pst :=
-  let '(p, s1) := peekPos d s in
-  let '((desc, _), s2) := parseDescription d s1 in
-  let '(_, s3) := peek d s2 in
-  let '(n, s4) := parseName d s3 in
-  let '(args, s5) := parseArgumentDefs d fuel s4 in
-  let '(_, s6) := expect d Colon s5 in
-  let '(t, s7) := parseTypeReference d fuel s6 in
-  let '(dirs, s8) := parseDirectives d fuel true s7 in
-  (mkFieldDef desc n args None t dirs p, s8).
+Definition parseFieldDefinition (fuel : nat) : prog fielddef :=
+  p <- peekPos ;;
+  '(desc, _) <- parseDescription ;;
+  _ <- Peek ;;
+  n <- parseName ;;
+  args <- parseArgumentDefs fuel ;;
+  _ <- expect Colon ;;
+  t <- parseTypeReference fuel ;;
+  dirs <- parseDirectives fuel true ;;
+  Ret (mkFieldDef desc n args None t dirs p).
 
-Definition parseInputValueDef (d : dev) (fuel : nat) (s : pst) : fielddef * pst :=
-  let '(p, s1) := peekPos d s in
-  let '((desc, _), s2) := parseDescription d s1 in
-  let '(_, s3) := peek d s2 in
-  let '(n, s4) := parseName d s3 in
-  let '(_, s5) := expect d Colon s4 in
-  let '(t, s6) := parseTypeReference d fuel s5 in
-  let '(hasdef, s7) := skip d Equals s6 in
-  let '(dv, s8) := if hasdef then let '(x, st) := parseValueLiteral d fuel true s7 in (Some x, st)
-                   else (None, s7) in
-  let '(dirs, s9) := parseDirectives d fuel true s8 in
-  (mkFieldDef desc n [] dv t dirs p, s9).
+Definition parseInputValueDef (fuel : nat) : prog fielddef :=
+  p <- peekPos ;;
+  '(desc, _) <- parseDescription ;;
+  _ <- Peek ;;
+  n <- parseName ;; _ <- expect Colon ;;
+  t <- parseTypeReference fuel ;;
+  hasdef <- skip Equals ;;
+  dv <- (if hasdef then x <- parseValueLiteral fuel true ;; Ret (Some x) else Ret None) ;;
+  dirs <- parseDirectives fuel true ;;
+  Ret (mkFieldDef desc n [] dv t dirs p).
 
-Definition parseEnumValueDefinition (d : dev) (fuel : nat) (s : pst) : enumval * pst :=
-  let '(p, s1) := peekPos d s in
-  let '((desc, _), s2) := parseDescription d s1 in
-  let '(_, s3) := peek d s2 in
-  let '(n, s4) := parseName d s3 in
-  let '(dirs, s5) := parseDirectives d fuel true s4 in
-  (mkEnumVal desc n dirs p, s5).
+Definition parseEnumValueDefinition (fuel : nat) : prog enumval :=
+  p <- peekPos ;;
+  '(desc, _) <- parseDescription ;;
+  _ <- Peek ;;
+  n <- parseName ;;
+  dirs <- parseDirectives fuel true ;;
+  Ret (mkEnumVal desc n dirs p).
 
-Definition parseFieldsDefinition (d : dev) (fuel : nat) (s : pst) : list fielddef * pst :=
-  some d (parseFieldDefinition d fuel) fuel BraceL BraceR s.
-Definition parseInputFieldsDefinition (d : dev) (fuel : nat) (s : pst) : list fielddef * pst :=
-  some d (parseInputValueDef d fuel) fuel BraceL BraceR s.
-Definition parseEnumValuesDefinition (d : dev) (fuel : nat) (s : pst) : list enumval * pst :=
-  some d (parseEnumValueDefinition d fuel) fuel BraceL BraceR s.
+Definition parseFieldsDefinition (fuel : nat) : prog (list fielddef) :=
+  some BraceL BraceR (parseFieldDefinition fuel).
+Definition parseInputFieldsDefinition (fuel : nat) : prog (list fielddef) :=
+  some BraceL BraceR (parseInputValueDef fuel).
+Definition parseEnumValuesDefinition (fuel : nat) : prog (list enumval) :=
+  some BraceL BraceR (parseEnumValueDefinition fuel).
 
 Definition def0 : definition := mkDef KScalar [] [] [] [] [] [] [] pos0 false.
+Definition nil_ {A} (l : list A) : bool := match l with [] => true | _ => false end.
 
 (* the six type definitions and their extensions share this shape;
    ext = true for `extend ...` (no description, emptiness check) *)
-Definition parseTypeDef (d : dev) (fuel : nat) (k : dkind) (kw : str) (ext : bool) (desc : str) (s : pst)
-  : definition * pst :=
-  let '(_, s1) := expectKeyword d kw s in
-  let '(p, s2) := peekPos d s1 in
-  let '(n, s3) := parseName d s2 in
+Definition parseTypeDef (d : dev) (fuel : nat) (k : dkind) (kw : str) (ext : bool) (desc : str)
+  : prog definition :=
+  _ <- expectKeyword kw ;;
+  p <- peekPos ;;
+  n <- parseName ;;
+  let finish (empty : bool) (x : definition) : prog definition :=
+      if ext && empty then unexpectedError ;;; Ret x else Ret x in
   match k with
   | KScalar =>
-    let '(dirs, s4) := parseDirectives d fuel true s3 in
-    let s5 := if ext && match dirs with [] => true | _ => false end then unexpectedError d s4 else s4 in
-    (mkDef k desc n dirs [] [] [] [] p false, s5)
+    dirs <- parseDirectives fuel true ;;
+    finish (nil_ dirs) (mkDef k desc n dirs [] [] [] [] p false)
   | KObject =>
-    let '(ifs, s4) := parseImplementsInterfaces d fuel s3 in
-    let '(dirs, s5) := parseDirectives d fuel true s4 in
-    let '(flds, s6) := parseFieldsDefinition d fuel s5 in
-    let empty := match ifs, dirs, flds with [], [], [] => true | _, _, _ => false end in
-    let s7 := if ext && empty then unexpectedError d s6 else s6 in
-    (mkDef k desc n dirs ifs flds [] [] p false, s7)
+    ifs <- parseImplementsInterfaces d ;;
+    dirs <- parseDirectives fuel true ;;
+    flds <- parseFieldsDefinition fuel ;;
+    finish (nil_ ifs && nil_ dirs && nil_ flds) (mkDef k desc n dirs ifs flds [] [] p false)
   | KInterface =>
-    let '(ifs, s4) := if ext && d F_S4 then ([], s3) else parseImplementsInterfaces d fuel s3 in
-    let '(dirs, s5) := parseDirectives d fuel true s4 in
-    let '(flds, s6) := parseFieldsDefinition d fuel s5 in
-    let empty := match ifs, dirs, flds with [], [], [] => true | _, _, _ => false end in
-    let s7 := if ext && empty then unexpectedError d s6 else s6 in
-    (mkDef k desc n dirs ifs flds [] [] p false, s7)
+    ifs <- (if ext && d F_S4 then Ret [] else parseImplementsInterfaces d) ;;
+    dirs <- parseDirectives fuel true ;;
+    flds <- parseFieldsDefinition fuel ;;
+    finish (nil_ ifs && nil_ dirs && nil_ flds) (mkDef k desc n dirs ifs flds [] [] p false)
   | KUnion =>
-    let '(dirs, s4) := parseDirectives d fuel true s3 in
-    let '(tys, s5) := parseUnionMemberTypes d fuel s4 in
-    let empty := match dirs, tys with [], [] => true | _, _ => false end in
-    let s6 := if ext && empty then unexpectedError d s5 else s5 in
-    (mkDef k desc n dirs [] [] tys [] p false, s6)
+    dirs <- parseDirectives fuel true ;;
+    tys <- parseUnionMemberTypes ;;
+    finish (nil_ dirs && nil_ tys) (mkDef k desc n dirs [] [] tys [] p false)
   | KEnum =>
-    let '(dirs, s4) := parseDirectives d fuel true s3 in
-    let '(vals, s5) := parseEnumValuesDefinition d fuel s4 in
-    let empty := match dirs, vals with [], [] => true | _, _ => false end in
-    let s6 := if ext && empty then unexpectedError d s5 else s5 in
-    (mkDef k desc n dirs [] [] [] vals p false, s6)
+    dirs <- parseDirectives fuel true ;;
+    vals <- parseEnumValuesDefinition fuel ;;
+    finish (nil_ dirs && nil_ vals) (mkDef k desc n dirs [] [] [] vals p false)
   | KInputObject =>
-    let '(dirs, s4) := parseDirectives d fuel (negb (ext && d F_S5)) s3 in
-    let '(flds, s5) := parseInputFieldsDefinition d fuel s4 in
-    let empty := match dirs, flds with [], [] => true | _, _ => false end in
-    let s6 := if ext && empty then unexpectedError d s5 else s5 in
-    (mkDef k desc n dirs [] flds [] [] p false, s6)
+    dirs <- parseDirectives fuel (negb (ext && d F_S5)) ;;
+    flds <- parseInputFieldsDefinition fuel ;;
+    finish (nil_ dirs && nil_ flds) (mkDef k desc n dirs [] flds [] [] p false)
   end.
 
 Definition type_keyword (v : str) : option dkind :=
@@ -170,14 +143,13 @@ Definition type_keyword (v : str) : option dkind :=
   else if str_eqb v (b "input") then Some KInputObject
   else None.
 
-Definition parseSchemaExtension (d : dev) (fuel : nat) (s : pst) : schemadef * pst :=
-  let '(_, s1) := expectKeyword d (b "schema") s in
-  let '(p, s2) := peekPos d s1 in
-  let '(dirs, s3) := parseDirectives d fuel true s2 in
-  let '(ops, s4) := some d (parseOperationTypeDefinition d) fuel BraceL BraceR s3 in
-  let empty := match dirs, ops with [], [] => true | _, _ => false end in
-  let s5 := if empty then unexpectedError d s4 else s4 in
-  (mkSchemaDef [] dirs ops p, s5).
+Definition parseSchemaExtension (d : dev) (fuel : nat) : prog schemadef :=
+  _ <- expectKeyword (b "schema") ;;
+  p <- peekPos ;;
+  dirs <- parseDirectives fuel true ;;
+  ops <- some BraceL BraceR (parseOperationTypeDefinition d) ;;
+  let x := mkSchemaDef [] dirs ops p in
+  if nil_ dirs && nil_ ops then unexpectedError ;;; Ret x else Ret x.
 
 Definition directive_locations : list str :=
   [b "QUERY"; b "MUTATION"; b "SUBSCRIPTION"; b "FIELD"; b "FRAGMENT_DEFINITION"; b "FRAGMENT_SPREAD";
@@ -185,119 +157,100 @@ Definition directive_locations : list str :=
    b "ARGUMENT_DEFINITION"; b "INTERFACE"; b "UNION"; b "ENUM"; b "ENUM_VALUE"; b "INPUT_OBJECT";
    b "INPUT_FIELD_DEFINITION"].
 
-Definition parseDirectiveLocation (d : dev) (s : pst) : str * pst :=
-  let '(tok, s1) := expect d Name s in
-  if existsb (str_eqb tok.(tval)) directive_locations then (tok.(tval), s1)
-  else ([], error_at s1 tok).
+Definition parseDirectiveLocation : prog str :=
+  tok <- expect Name ;;
+  if existsb (str_eqb tok.(tval)) directive_locations then Ret tok.(tval)
+  else ErrorAt tok ;;; Ret [].
 
-Fixpoint dirlocs_loop (d : dev) (fuel : nat) (s : pst) (acc : list str) : list str * pst :=
-  match fuel with
-  | O => stall (rev acc) s
-  | S f =>
-    let '(has, s1) := skip d Pipe s in
-    if has && negb (has_err s1) then
-      let '(n, s2) := parseDirectiveLocation d s1 in dirlocs_loop d f s2 (n :: acc)
-    else (rev acc, s1)
-  end.
+Definition parseDirectiveDefinition (fuel : nat) (desc : str) : prog dirdef :=
+  _ <- expectKeyword (b "directive") ;;
+  _ <- expect At ;;
+  p <- peekPos ;;
+  n <- parseName ;;
+  args <- parseArgumentDefs fuel ;;
+  pk <- Peek ;;
+  rep <- (if is_kw pk (b "repeatable") then _ <- skip Name ;; Ret true else Ret false) ;;
+  _ <- expectKeyword (b "on") ;;
+  _ <- skip Pipe ;;
+  l0 <- parseDirectiveLocation ;;
+  locs <- sep_loop Pipe parseDirectiveLocation ;;
+  Ret (mkDirDef desc n args (l0 :: locs) rep p).
 
-Definition parseDirectiveDefinition (d : dev) (fuel : nat) (desc : str) (s : pst) : dirdef * pst :=
-  let '(_, s1) := expectKeyword d (b "directive") s in
-  let '(_, s2) := expect d At s1 in
-  let '(p, s3) := peekPos d s2 in
-  let '(n, s4) := parseName d s3 in
-  let '(args, s5) := parseArgumentDefs d fuel s4 in
-  let '(pk, s6) := peek d s5 in
-  let '(rep, s7) := if is_kw pk (b "repeatable") then (true, snd (skip d Name s6)) else (false, s6) in
-  let '(_, s8) := expectKeyword d (b "on") s7 in
-  let '(_, s9) := skip d Pipe s8 in
-  let '(l0, s10) := parseDirectiveLocation d s9 in
-  let '(locs, s11) := dirlocs_loop d fuel s10 [l0] in
-  (mkDirDef desc n args locs rep p, s11).
+(* what one iteration of the document loop contributes *)
+Inductive sitem :=
+| IDef (x : definition) | IExt (x : definition) | ISchema (x : schemadef) | ISchemaExt (x : schemadef)
+| IDir (x : dirdef) | INone.
 
-Definition add_ext (doc : sdoc) (x : definition) : sdoc :=
-  mkSDoc doc.(s_schema) doc.(s_schemaext) doc.(s_dirs) doc.(s_defs) (x :: doc.(s_exts)) doc.(s_pos).
-
-(* accumulators are kept reversed and put in order at the end *)
-Fixpoint parseSchemaDocument_loop (d : dev) (loopfuel fuel : nat) (s : pst) (doc : sdoc) : option sdoc * pst :=
-  match loopfuel with
-  | O => stall None s
-  | S lf =>
-    let '(tok, s1) := peek d s in
-    if kind_eqb tok.(tkind) EOF then (Some doc, s1)
-    else if has_err s1 then (None, s1)
-    else
-      let '(pk, s2) := peek d s1 in
-      let '((desc, hasdesc), s3) :=
-          if kind_eqb pk.(tkind) BlockString || kind_eqb pk.(tkind) String_ then parseDescription d s2
-          else (([], false), s2) in
-      let '(tk, s4) := peek d s3 in
-      if negb (kind_eqb tk.(tkind) Name) then (Some doc, unexpectedError d s4)
-      else
-        match type_keyword tk.(tval) with
-        | Some k =>
-          let '(x, s5) := parseTypeDef d fuel k tk.(tval) false desc s4 in
-          parseSchemaDocument_loop d lf fuel s5
-            (mkSDoc doc.(s_schema) doc.(s_schemaext) doc.(s_dirs) (x :: doc.(s_defs)) doc.(s_exts) doc.(s_pos))
-        | None =>
-          if str_eqb tk.(tval) (b "schema") then
-            let '(x, s5) := parseSchemaDefinition d fuel desc s4 in
-            parseSchemaDocument_loop d lf fuel s5
-              (mkSDoc (x :: doc.(s_schema)) doc.(s_schemaext) doc.(s_dirs) doc.(s_defs) doc.(s_exts) doc.(s_pos))
-          else if str_eqb tk.(tval) (b "directive") then
-            let '(x, s5) := parseDirectiveDefinition d fuel desc s4 in
-            parseSchemaDocument_loop d lf fuel s5
-              (mkSDoc doc.(s_schema) doc.(s_schemaext) (x :: doc.(s_dirs)) doc.(s_defs) doc.(s_exts) doc.(s_pos))
-          else if str_eqb tk.(tval) (b "extend") then
-            let bad := if d F_S6 then negb (match desc with [] => true | _ => false end) else hasdesc in
-            let s5 := if bad then error_at s4 (prev s4) else s4 in
-            (* parseTypeSystemExtension *)
-            let '(_, s6) := expectKeyword d (b "extend") s5 in
-            let '(ek, s7) := peek d s6 in
-            if str_eqb ek.(tval) (b "schema") then
-              let '(x, s8) := parseSchemaExtension d fuel s7 in
-              parseSchemaDocument_loop d lf fuel s8
-                (mkSDoc doc.(s_schema) (x :: doc.(s_schemaext)) doc.(s_dirs) doc.(s_defs) doc.(s_exts) doc.(s_pos))
-            else
-              match type_keyword ek.(tval) with
-              | Some k =>
-                let '(x, s8) := parseTypeDef d fuel k ek.(tval) true [] s7 in
-                parseSchemaDocument_loop d lf fuel s8 (add_ext doc x)
-              | None => parseSchemaDocument_loop d lf fuel (unexpectedError d s7) doc
-              end
-          else (None, unexpectedError d s4)
-        end
-  end.
+(* Some item = continue the loop; None = leave it *)
+Definition parseSchemaDocument_body (d : dev) (fuel : nat) : prog (option sitem) :=
+  tok <- Peek ;;
+  if kind_eqb tok.(tkind) EOF then Ret None else
+  e <- HasErr ;;
+  if e then Ret None else
+  pk <- Peek ;;
+  '(desc, hasdesc) <- (if kind_eqb pk.(tkind) BlockString || kind_eqb pk.(tkind) String_
+                       then parseDescription else Ret ([], false)) ;;
+  tk <- Peek ;;
+  if negb (kind_eqb tk.(tkind) Name) then unexpectedError ;;; Ret None
+  else
+    match type_keyword tk.(tval) with
+    | Some k => x <- parseTypeDef d fuel k tk.(tval) false desc ;; Ret (Some (IDef x))
+    | None =>
+      if str_eqb tk.(tval) (b "schema") then x <- parseSchemaDefinition d fuel desc ;; Ret (Some (ISchema x))
+      else if str_eqb tk.(tval) (b "directive") then x <- parseDirectiveDefinition fuel desc ;; Ret (Some (IDir x))
+      else if str_eqb tk.(tval) (b "extend") then
+        let bad := if d F_S6 then negb (nil_ desc) else hasdesc in
+        _ <- (if bad then pv <- Prev ;; ErrorAt pv else Ret tt) ;;
+        (* parseTypeSystemExtension *)
+        _ <- expectKeyword (b "extend") ;;
+        ek <- Peek ;;
+        if str_eqb ek.(tval) (b "schema") then x <- parseSchemaExtension d fuel ;; Ret (Some (ISchemaExt x))
+        else
+          match type_keyword ek.(tval) with
+          | Some k => x <- parseTypeDef d fuel k ek.(tval) true [] ;; Ret (Some (IExt x))
+          | None => unexpectedError ;;; Ret (Some INone)
+          end
+      else unexpectedError ;;; Ret None
+    end.
 
 Definition set_builtin (bi : bool) (x : definition) : definition :=
   mkDef x.(df_kind) x.(df_desc) x.(df_name) x.(df_dirs) x.(df_ifaces) x.(df_fields) x.(df_types)
         x.(df_enums) x.(df_pos) bi.
 
-Definition parseSchemaDocument (d : dev) (fuel : nat) (s : pst) : option sdoc * pst :=
-  let '(p, s1) := peekPos d s in
-  let '(od, s2) := parseSchemaDocument_loop d fuel fuel s1 (mkSDoc [] [] [] [] [] (Some p)) in
-  match od with
-  | None => (None, s2)
-  | Some doc =>
-    let doc' := mkSDoc (rev doc.(s_schema)) (rev doc.(s_schemaext)) (rev doc.(s_dirs))
-                       (rev doc.(s_defs)) (rev doc.(s_exts)) doc.(s_pos) in
-    let isempty := match doc'.(s_schema), doc'.(s_schemaext), doc'.(s_dirs), doc'.(s_defs), doc'.(s_exts) with
-                   | [], [], [], [], [] => true | _, _, _, _, _ => false end in
-    if isempty && negb (d F_S7) && negb (has_err s2) then (Some doc', unexpectedError d s2)
-    else (Some doc', s2)
+Fixpoint collect (items : list sitem) (doc : sdoc) : sdoc :=
+  match items with
+  | [] => doc
+  | it :: tl =>
+    let doc' :=
+        match it with
+        | IDef x => mkSDoc doc.(s_schema) doc.(s_schemaext) doc.(s_dirs) (doc.(s_defs) ++ [x]) doc.(s_exts) doc.(s_pos)
+        | IExt x => mkSDoc doc.(s_schema) doc.(s_schemaext) doc.(s_dirs) doc.(s_defs) (doc.(s_exts) ++ [x]) doc.(s_pos)
+        | ISchema x => mkSDoc (doc.(s_schema) ++ [x]) doc.(s_schemaext) doc.(s_dirs) doc.(s_defs) doc.(s_exts) doc.(s_pos)
+        | ISchemaExt x => mkSDoc doc.(s_schema) (doc.(s_schemaext) ++ [x]) doc.(s_dirs) doc.(s_defs) doc.(s_exts) doc.(s_pos)
+        | IDir x => mkSDoc doc.(s_schema) doc.(s_schemaext) (doc.(s_dirs) ++ [x]) doc.(s_defs) doc.(s_exts) doc.(s_pos)
+        | INone => doc
+        end in
+    collect tl doc'
   end.
+
+Definition sdoc_empty (doc : sdoc) : bool :=
+  nil_ doc.(s_schema) && nil_ doc.(s_schemaext) && nil_ doc.(s_dirs) && nil_ doc.(s_defs) && nil_ doc.(s_exts).
+
+Definition parseSchemaDocument (d : dev) (fuel : nat) : prog sdoc :=
+  p <- peekPos ;;
+  items <- Loop (parseSchemaDocument_body d fuel) ;;
+  let doc := collect items (mkSDoc [] [] [] [] [] (Some p)) in
+  e <- HasErr ;;
+  if sdoc_empty doc && negb (d F_S7) && negb e then unexpectedError ;;; Ret doc else Ret doc.
 
 Definition parseSchemaWith (d : dev) (fuel : nat) (limit : N) (srcix : N) (builtin : bool) (input : str)
   : pres sdoc * pst :=
-  let '(od, s) := parseSchemaDocument d fuel (pst_init input limit srcix) in
+  let '(doc, s) := run d (parseSchemaDocument d fuel) fuel (pst_init input limit srcix) in
   match perr_ s with
   | Some e => (PErr e, s)
   | None =>
-    match od with
-    | None => (PErr PStall, s)  (* nil document without an error: proved unreachable *)
-    | Some doc =>
-      (POk (mkSDoc doc.(s_schema) doc.(s_schemaext) doc.(s_dirs) (map (set_builtin builtin) doc.(s_defs))
-                   (map (set_builtin builtin) doc.(s_exts)) doc.(s_pos)), s)
-    end
+    (POk (mkSDoc doc.(s_schema) doc.(s_schemaext) doc.(s_dirs) (map (set_builtin builtin) doc.(s_defs))
+                 (map (set_builtin builtin) doc.(s_exts)) doc.(s_pos)), s)
   end.
 
 Definition parseSchema (d : dev) (limit : N) (srcix : N) (builtin : bool) (input : str) : pres sdoc :=
